@@ -405,8 +405,20 @@ def op_api(req, trace):
             extra['diff'] = str(d)
         if args.get('execute', True) and extra['required'] and (
                 extra['diff_empty'] or args.get('force')):
-            ev.evolve()
-            extra['evolved'] = True
+            if args.get('nested_atomic'):
+                # the caller holds its own transaction around evolve(),
+                # handles the failure inside it and lets the block commit
+                from django.db import transaction
+                with transaction.atomic(using=args.get('database',
+                                                       'default')):
+                    try:
+                        ev.evolve()
+                        extra['evolved'] = True
+                    except EvolutionException as e:
+                        status, exc = 'evolution_error', e
+            else:
+                ev.evolve()
+                extra['evolved'] = True
         elif args.get('execute', True) and extra['required']:
             # what the evolve command does at its simulation gate
             status = 'rejected'
